@@ -1380,7 +1380,9 @@ class Py2Cpp(ITranspiler):
 		return self.render(node, 'operation/unary_operator', vars={'operator': operator, 'value': value})
 
 	def on_not_compare(self, node: defs.NotCompare, operator: str, value: str) -> str:
-		return self.render(node, 'operation/unary_operator', vars={'operator': '!', 'value': value})
+		# XXX C++の`!`は2項演算子より優先されるため、被演算子が2項演算の場合は括弧で保護
+		protected = f'({value})' if isinstance(node.value, defs.BinaryOperator) else value
+		return self.render(node, 'operation/unary_operator', vars={'operator': '!', 'value': protected})
 
 	def on_or_compare(self, node: defs.OrCompare, elements: list[str]) -> str:
 		return self.proc_binary_operation(node, elements)
